@@ -20,7 +20,30 @@
  *      in the packet at 90 kHz mod 2^33, data_alignment only at an access unit start, payload
  *      octets = concatenation of the access units;
  *  (3) upipe view (ts_decaps -> ts_pes_decaps): same octets, unit starts, dts_orig/pts_orig,
- *      random flag, no discontinuity besides the announced ones. */
+ *      random flag, no discontinuity besides the announced ones.
+ *
+ * path S: PSI sections (3..4098 octets) -> upipe_ts_encaps with the flow definition
+ *         "block.mpegtspsi." the way upipe_ts_mux's psi_pid drives it (cr_sys only, no dts, no
+ *         PCR); or, sub-mode R, -> the reference section packetiser (several sections per
+ *         packet, pointer_field != 0, sections spanning packets) -> ts_decaps ("mpegts.mpegtspsi.").
+ *         Oracle: packet invariants of (1); the reference section reassembler (C15_ref.h, ISO/IEC
+ *         13818-1 2.4.4: pointer_field, back-to-back sections, 0xff stuffing only after the last
+ *         section of a packet) recovers exactly the input sections in order, both from the
+ *         emitted packets and from what ts_decaps outputs for them.
+ *
+ * Extension block (decoded after the access units; an exhausted tape gives none): buffer
+ * manager provided late, output pipe, set_cr_prog, max_delay, getters, mid-stream flow
+ * definition (PID / stream id / header size / rates), refused flow definitions, and a script of
+ * control commands between access units (set_pcr_interval, set_tb_size, splice(NULL) = drop
+ * late units, UPIPE_FLUSH, set_max_length). Their oracles:
+ *  - a PCR is carried by the first packet muxed at or after (date of the last PCR + interval),
+ *    none while the interval is 0, its value is the program clock at the mux date;
+ *  - after set_cr_prog(v) every coded date (PCR, PTS, DTS) is shifted by ONE common offset, which
+ *    places the first access unit's program clock at v (within its transmission time);
+ *  - getters return what was set; a refused flow definition leaves the pipe usable;
+ *  - splice(T, NULL) drops exactly the leading held units whose DTS is before T, whole;
+ *  - UPIPE_FLUSH succeeds and drops whole, not yet started units only;
+ *  - packets carry the PID configured by the flow definition in force for their access unit. */
 #define C15_NEED_MUX_STUBS
 #include "C15_fixture.h"
 #include "C15_ref.h"
@@ -28,7 +51,10 @@
 enum {
     CL_PATH_E, CL_PATH_P, CL_AU3AF, CL_PCR, CL_PCR_ONLY_PKT, CL_WRAP, CL_UNBOUNDED, CL_NEAR64K, CL_MULT184,
     CL_NOALIGN, CL_OVERLAP, CL_AGGREGATE, CL_MINHDR, CL_PRIV2, CL_NOPTS, CL_PTSONLY, CL_PTSDTS, CL_RANDOM,
-    CL_DISC, CL_LIVE, CL_SEGMENTED, CL_HDRSPLIT, CL_BIGDELAY, CL_SETCC, CL_TINY
+    CL_DISC, CL_LIVE, CL_SEGMENTED, CL_HDRSPLIT, CL_BIGDELAY, CL_SETCC, CL_TINY,
+    CL_PSI_E, CL_PSI_R, CL_PSI_SPAN, CL_PSI_PAD, CL_PSI_EXACT, CL_PSI_MULTI, CL_PSI_PTR, CL_PSI_BIG, CL_PSI_MIN,
+    CL_X_DEFER, CL_X_OUTSINK, CL_X_SETCR, CL_X_SETCR_REFUSED, CL_X_MAXDELAY, CL_X_GETTERS, CL_X_FDCHANGE, CL_X_BADFD,
+    CL_X_PCRIV, CL_X_PCROFF, CL_X_TBSIZE, CL_X_SPLICE_FLUSH, CL_X_UPIPE_FLUSH, CL_X_MAXLEN, CL_X_PCR_MUST, CL_X_EARLY_RELEASE
 };
 static const char *const class_names[] = {
     "path_ts_encaps", "path_ts_pes_encaps", "au_ge3_packets_af_in_last", "pcr_present", "pcr_only_packet",
@@ -36,7 +62,14 @@ static const char *const class_names[] = {
     "no_pes_alignment", "au_overlap_into_next_pes", "aus_aggregated_in_one_pes", "minimal_pes_header",
     "private_stream_2", "no_pts", "pts_only", "pts_and_dts", "random_access", "discontinuity",
     "live_mode_splice_when_not_ready", "segmented_input_block", "pes_header_split_over_packets",
-    "pts_dts_delay_gt_60s", "set_cc", "au_of_1_octet", NULL };
+    "pts_dts_delay_gt_60s", "set_cc", "au_of_1_octet",
+    "psi_ts_encaps", "psi_reference_packetiser", "psi_section_spans_packets", "psi_stuffing_after_section",
+    "psi_section_ends_with_packet", "psi_several_sections_in_packet", "psi_pointer_field_nonzero", "psi_section_gt_1024",
+    "psi_section_of_3_octets",
+    "x_ubuf_mgr_provided_late", "x_output_pipe_set", "x_set_cr_prog", "x_set_cr_prog_refused", "x_max_delay", "x_getters",
+    "x_flow_def_changed_midstream", "x_refused_flow_defs", "x_set_pcr_interval_midstream", "x_pcr_cancelled_midstream",
+    "x_set_tb_size_midstream", "x_splice_null_drops_late_units", "x_upipe_flush_drops_units", "x_set_max_length",
+    "x_pcr_due_and_present", "x_pese_released_while_buffering", NULL };
 
 #define P_ENC 0
 #define P_SINKA 1
@@ -44,6 +77,7 @@ static const char *const class_names[] = {
 #define P_TEE 3
 #define P_PESD 4
 #define P_SINK 5
+#define P_OUT 6
 
 #define MAXAU 24
 #define F27 UINT64_C(27000000)
@@ -53,6 +87,39 @@ struct au {
     bool has_pts, has_dts_field, random, disc, bigdelay;
     uint64_t pts33, dts33;        /* 90 kHz fields */
     uint64_t dts_dec;             /* what a decoder reads as DTS: dts33, or pts33 when there is no DTS field */
+    /* 27 MHz program dates as carried by the uref (for the common-offset oracle of set_cr_prog) and system dates */
+    bool has_dts27, has_cr27, has_dts_sys;
+    uint64_t pts27, dts27, cr27, dts_sys;
+    bool dropped;                 /* dropped by a flush (model) */
+    int cfg;                      /* 0: first flow definition, 1: the one set in mid-stream */
+};
+
+/* common offset of the coded dates after set_cr_prog: coded = (date + base + d) mod 2^33*300 with ONE d in [lo, hi] */
+#define M33 (R_POW33 * 300)
+struct offs { bool on; uint64_t base; int64_t lo, hi; int64_t shift; /* v - cr_prog of the first unit, not reduced */ };
+/* the coded value lies in [coded_lo27, coded_lo27 + width] (width 0 for a PCR, 299 for a 90 kHz field) */
+static bool offs_observe(struct offs *o, int64_t date27, uint64_t coded_lo27, unsigned width)
+{
+    /* the date itself may be negative (a program clock starting at 0 with a packet muxed before the first unit's date); a
+     * coded date that would be negative has no representation: no expectation (outside the domain of set_cr_prog) */
+    if (date27 + o->shift + o->lo < 0) return o->lo <= o->hi;
+    uint64_t y = ((uint64_t)((date27 % (int64_t)M33 + (int64_t)M33) % (int64_t)M33) + o->base) % M33;
+    int64_t d = (int64_t)((coded_lo27 % M33 + M33 - y) % M33);
+    if (d > (int64_t)(M33 / 2)) d -= (int64_t)M33;
+    if (d > o->lo) o->lo = d;
+    if (d + (int64_t)width < o->hi) o->hi = d + (int64_t)width;
+    return o->lo <= o->hi;
+}
+
+struct cfg { unsigned pid, pes_id, min_hdr; };
+
+struct extop { int kind, at; uint64_t v; bool done; };
+enum { XO_PCRIV, XO_TBSIZE, XO_SPLICE_FLUSH, XO_UPIPE_FLUSH, XO_MAXLEN, XO_PCROFF, XO_N };
+struct ext {
+    bool any, defer, outsink, setcr, maxdelay, getters, fdchange, badfd, early_release;
+    int defer_k, fd_at;
+    uint64_t cr_v, max_delay, octetrate2, tb_rate2;
+    int nops; struct extop op[4];
 };
 
 struct pesv {                     /* one PES as seen by an observer */
@@ -73,6 +140,11 @@ struct ctx {
     size_t *pstart; bool *prai, *pdi; size_t npstart, cappstart;
     struct pesv *va; size_t nva;        /* reference view */
     struct pesv *vb; size_t nvb;        /* upipe view */
+    struct offs offs;
+    struct cfg cfg[2];
+    struct fx_rec outsink;
+    struct rpsi rpsi, rpsi2;            /* sections recovered from the emitted packets / from the ts_decaps output */
+    uint8_t *secbuf, *secbuf2;
 };
 static struct ctx C;
 
@@ -147,9 +219,25 @@ static int check_views(struct ctx *c, struct vp_report *rep, const char *who, co
             if (p->has_pts) VFAIL("pts-without-au", "PES %zu (offset %zu, %zu octets) carries a PTS but no access unit commences in it", k, p->off, p->size);
             continue;
         }
-        const struct au *u = &c->au[a];
+        struct au *u = &c->au[a];
         if (p->has_pts != u->has_pts) { VFAIL("pts-presence", "PES %zu: first access unit commencing in it is au%d with%s PTS, the PES has %s", k, a, u->has_pts ? "" : "out", p->has_pts ? "one" : "none"); break; }
-        if (!upipe_view && u->has_pts) {
+        if (!upipe_view && u->has_pts && c->offs.on) {
+            /* set_cr_prog in force: every coded date is the unit's date plus one common offset; a DTS within one 90 kHz
+             * tick of the PTS may or may not get its own field */
+            bool near = u->has_dts27 && u->pts27 - u->dts27 < 300;
+            if (!offs_observe(&c->offs, (int64_t)u->pts27, p->pts * 300, 299))
+                VFAIL("pts-offset", "PES %zu (au%d): PTS field 0x%llx is not the unit's pts_prog %llu shifted by the offset common to the other coded dates (set_cr_prog)", k, a, (unsigned long long)p->pts, (unsigned long long)u->pts27);
+            else if (p->has_dts && !u->has_dts27) VFAIL("dts-presence", "PES %zu (au%d): DTS field present, the unit has no DTS", k, a);
+            else if (!near && p->has_dts != u->has_dts_field) VFAIL("dts-presence", "PES %zu (au%d): DTS field %s, expected %s", k, a, p->has_dts ? "present" : "absent", u->has_dts_field ? "present" : "absent");
+            else if (p->has_dts && !offs_observe(&c->offs, (int64_t)u->dts27, p->dts * 300, 299))
+                VFAIL("dts-offset", "PES %zu (au%d): DTS field 0x%llx is not the unit's dts_prog %llu shifted by the common offset (set_cr_prog)", k, a, (unsigned long long)p->dts, (unsigned long long)u->dts27);
+            if (!ret) {
+                /* from here on the unit is known by the dates it carries in the stream (what the decapsulation must return) */
+                u->pts33 = p->pts; u->has_dts_field = p->has_dts; u->dts33 = p->has_dts ? p->dts : 0;
+                u->dts_dec = p->has_dts ? p->dts : p->pts;
+                u->bigdelay = ((u->pts33 + R_POW33 - u->dts_dec) & (R_POW33 - 1)) * 300 > F27 * 60;
+            }
+        } else if (!upipe_view && u->has_pts) {
             if (p->pts != u->pts33) VFAIL("pts", "PES %zu (au%d): PTS field 0x%llx, expected 0x%llx", k, a, (unsigned long long)p->pts, (unsigned long long)u->pts33);
             else if (p->has_dts != u->has_dts_field) VFAIL("dts-presence", "PES %zu (au%d): DTS field %s, expected %s", k, a, p->has_dts ? "present" : "absent", u->has_dts_field ? "present" : "absent");
             else if (p->has_dts && p->dts != u->dts33) VFAIL("dts", "PES %zu (au%d): DTS field 0x%llx, expected 0x%llx", k, a, (unsigned long long)p->dts, (unsigned long long)u->dts33);
@@ -186,13 +274,16 @@ static int check_views(struct ctx *c, struct vp_report *rep, const char *who, co
 }
 
 
-struct pkmeta { bool pusi, has_payload, has_af, pcr; };
+struct pkmeta { bool pusi, has_payload, has_af, pcr; unsigned pid; };
 
 struct rstate {
     unsigned cc;                  /* model of the continuity counter */
     size_t npkt;
     struct pkmeta *meta; size_t capmeta;
-    unsigned pid;
+    unsigned pid, pid2;           /* the configured PID(s): pid2 after a mid-stream flow definition */
+    bool pcr_forbidden;           /* path E, PCR interval 0: no packet may carry a PCR */
+    bool pcr_must;                /* path E: a PCR is due at this mux date */
+    bool psi;                     /* PSI mode: the payload goes to the section reassembler, not to the PES view */
     bool check_pcr;               /* path E: PCR must equal the program clock at the mux date */
     int64_t prog_minus_sys;
     struct upipe *decaps;
@@ -213,7 +304,7 @@ static int on_packet(struct ctx *c, struct vp_report *rep, struct rstate *st, co
           r.pusi ? "PUSI " : "", r.has_payload ? "" : "(no payload) ", afs, r.rai ? " RAI" : "", r.di ? " DI" : "", r.pcr_f ? " PCR" : "", r.pay_len);
     }
     if (r.bad) FAIL("C15/ts/malformed", "packet %zu: %s (header %02x %02x %02x %02x %02x)", n, r.bad, pk[0], pk[1], pk[2], pk[3], pk[4]);
-    else if (r.pid != st->pid) FAIL("C15/ts/pid", "packet %zu carries PID %u, configured %u", n, r.pid, st->pid);
+    else if (r.pid != st->pid && r.pid != st->pid2) FAIL("C15/ts/pid", "packet %zu carries PID %u, configured %u", n, r.pid, st->pid);
     else if (r.tei || r.tsc || r.prio) FAIL("C15/ts/header-bits", "packet %zu: transport_error=%d scrambling=%u priority=%d", n, r.tei, r.tsc, r.prio);
     else if (r.has_payload && r.cc != ((st->cc + 1) & 15)) FAIL("C15/ts/continuity", "packet %zu carries a payload: continuity counter %u after %u", n, r.cc, st->cc);
     else if (!r.has_payload && r.cc != st->cc) FAIL("C15/ts/continuity-no-payload", "packet %zu has no payload: continuity counter %u after %u (must not be incremented)", n, r.cc, st->cc);
@@ -221,7 +312,14 @@ static int on_packet(struct ctx *c, struct vp_report *rep, struct rstate *st, co
     else if (r.has_af && r.afl && (r.espi || r.opcr_f || r.sp_f || r.priv_f || r.ext_f)) FAIL("C15/ts/af-flags", "packet %zu: unexpected adaptation field flags (byte %02x)", n, pk[5]);
     else if (r.pusi && !r.has_payload) FAIL("C15/ts/pusi-without-payload", "packet %zu: payload_unit_start without payload", n);
     else if (r.pcr_f && (r.pcr_ext >= 300 || r.pcr_reserved != 0x3f)) FAIL("C15/ts/pcr-syntax", "packet %zu: PCR extension %u reserved bits %02x", n, r.pcr_ext, r.pcr_reserved);
-    else if (r.pcr_f && st->check_pcr) {
+    else if (r.pcr_f && st->pcr_forbidden) FAIL("C15/ts/pcr-unexpected", "packet %zu muxed at %llu carries a PCR although the PCR interval is 0 (no PCR insertion)", n, (unsigned long long)T);
+    else if (!r.pcr_f && st->pcr_must) FAIL("C15/ts/pcr-missing", "packet %zu muxed at %llu carries no PCR although the PCR interval has elapsed since the last PCR", n, (unsigned long long)T);
+    else if (r.pcr_f && st->check_pcr && c->offs.on) {
+        int64_t prog = (int64_t)T + st->prog_minus_sys;
+        if (!offs_observe(&c->offs, prog, r.pcr27, 0))
+            FAIL("C15/ts/pcr-offset", "packet %zu muxed at %llu: PCR %llu is not the program clock there (%lld) shifted by the offset common to the other coded dates (set_cr_prog: base %llu, window %lld..%lld)", n,
+                 (unsigned long long)T, (unsigned long long)r.pcr27, (long long)prog, (unsigned long long)c->offs.base, (long long)c->offs.lo, (long long)c->offs.hi);
+    } else if (r.pcr_f && st->check_pcr) {
         uint64_t prog = T + (uint64_t)st->prog_minus_sys;
         uint64_t want = ((prog / 300) % R_POW33) * 300 + prog % 300;
         if (r.pcr27 != want) FAIL("C15/ts/pcr-value", "packet %zu muxed at %llu: PCR %llu (base %llu ext %u), program clock there is %llu -> %llu", n,
@@ -235,8 +333,15 @@ static int on_packet(struct ctx *c, struct vp_report *rep, struct rstate *st, co
         if (!m) return vp_internal(rep, "malloc");
         st->meta = m; st->capmeta = nc;
     }
-    st->meta[n].pusi = r.pusi; st->meta[n].has_payload = r.has_payload; st->meta[n].has_af = r.has_af; st->meta[n].pcr = r.pcr_f;
-    if (r.has_payload) {
+    st->meta[n].pusi = r.pusi; st->meta[n].has_payload = r.has_payload; st->meta[n].has_af = r.has_af; st->meta[n].pcr = r.pcr_f; st->meta[n].pid = r.pid;
+    if (st->psi) {
+        if (r.has_af && r.afl && (r.rai || r.di)) return vp_fail(rep, "C15/ts/marker-on-psi", "packet %zu of a PSI PID carries random_access=%d discontinuity=%d", n, r.rai, r.di);
+        if (r.has_payload) {
+            if (!es_push(c, pk + r.pay_off, r.pay_len)) return vp_internal(rep, "malloc");
+            rpsi_packet(&c->rpsi, pk + r.pay_off, r.pay_len, r.pusi);
+            if (c->rpsi.bad) return vp_fail(rep, "C15/psi/packet-syntax", "packet %zu (payload_unit_start=%d, pointer_field/first octet 0x%02x): %s", n, r.pusi, pk[r.pay_off], c->rpsi.bad);
+        }
+    } else if (r.has_payload) {
         if (r.pusi && !pstart_push(c, c->nes, r.has_af && r.afl && r.rai, r.has_af && r.afl && r.di)) return vp_internal(rep, "malloc");
         if (!r.pusi && r.has_af && r.afl && (r.rai || r.di)) return vp_fail(rep, "C15/ts/marker-not-on-unit-start", "packet %zu: random_access=%d discontinuity=%d on a packet that does not start a unit", n, r.rai, r.di);
         if (!es_push(c, pk + r.pay_off, r.pay_len)) return vp_internal(rep, "malloc");
@@ -252,6 +357,340 @@ static int on_packet(struct ctx *c, struct vp_report *rep, struct rstate *st, co
     return 0;
 }
 
+/* One spliced ubuf -> 188 octets -> on_packet. */
+static int take_packet(struct ctx *c, struct vp_report *rep, struct rstate *st, struct ubuf *ubuf, uint64_t T, bool render)
+{
+    size_t usz = 0; uint8_t pk[R_TS];
+    ubuf_block_size(ubuf, &usz);
+    if (usz != R_TS) { ubuf_free(ubuf); return vp_fail(rep, "C15/ts/size", "packet %zu has %zu octets", st->npkt, usz); }
+    if (!ubase_check(ubuf_block_extract(ubuf, 0, R_TS, pk))) { ubuf_free(ubuf); return vp_internal(rep, "extract"); }
+    ubuf_free(ubuf);
+    return on_packet(c, rep, st, pk, T, render);
+}
+
+static const uint16_t pid_table[] = { 68, 0x100, 0x1ffe, 16, 0x1000, 0x0fff, 32, 0x1abc };
+
+/* ------------------------------------------------------------------------------------------------ PSI sections */
+#define MAXSEC 24
+#define PSI_MAXOCT (MAXSEC * 4100)
+struct secd { size_t off, size; uint64_t gap; bool pump; int nseg; size_t seg[2]; };
+
+static int psi_compare(struct ctx *c, struct vp_report *rep, const struct rpsi *r, const char *who, const struct secd *sd, int nsec, const uint8_t *cat)
+{
+    char key[64];
+    snprintf(key, sizeof key, "C15/psi/%s", who);
+    if (r->bad) return vp_fail(rep, key, "section syntax in the %s: %s", who, r->bad);
+    for (int i = 0; i < nsec; i++) {
+        if ((unsigned)i >= r->nsec) return vp_fail(rep, key, "%d sections were sent, %u recovered from the %s", nsec, r->nsec, who);
+        size_t got = r->off[i + 1] - r->off[i];
+        if (got != sd[i].size || memcmp(r->buf + r->off[i], cat + sd[i].off, got)) {
+            size_t d = 0; while (d < got && d < sd[i].size && r->buf[r->off[i] + d] == cat[sd[i].off + d]) d++;
+            return vp_fail(rep, key, "section %d: sent %zu octets, recovered %zu from the %s; first difference at octet %zu", i, sd[i].size, got, who, d);
+        }
+    }
+    if (r->nsec != (unsigned)nsec) return vp_fail(rep, key, "%d sections were sent, %u recovered from the %s", nsec, r->nsec, who);
+    (void)c;
+    return 0;
+}
+
+static int run_psi(struct ctx *c, struct tape *tp, struct vp_report *rep, unsigned flags, bool subR)
+{
+    struct tape t = *tp;
+    struct fx *fx = &c->fx;
+    bool render = flags & VP_RENDER, thorough = flags & VP_THOROUGH;
+    int ret = 0;
+    uint64_t cls = 0, h = VP_HASH_INIT;
+    static struct secd sd[MAXSEC];
+
+    uint8_t psel = tp_u8(&t);
+    unsigned pid = (psel & 0x80) ? (tp_u16(&t) % 0x1fff) : (psel & 8) ? 0 : pid_table[psel % 8];   /* PAT PID 0 included */
+    uint8_t csel = tp_u8(&t);
+    bool do_setcc = csel & 16;
+    unsigned cc0 = do_setcc ? (csel >> 5) + 8 * (csel & 1) : 0;
+    uint8_t osel = tp_u8(&t);
+    uint64_t octetrate = osel < 128 ? 1024 + 50 * (uint64_t)osel : 12500 * (uint64_t)(osel - 127);
+    uint64_t tb_rate = (osel & 1) ? 125000 : octetrate * (1 + tp_u8(&t) % 3);          /* upipe_ts_mux: TB_RATE_PSI = 125000 */
+    uint8_t msel = tp_u8(&t);
+    unsigned tb_size = (msel & 3) == 1 ? 512 : (msel & 3) == 2 ? 1640 : (msel & 3) == 3 ? 4096 : 0;
+    uint64_t mux_interval = (msel & 4) ? F27 / 1000 : 0;
+    bool defer = (msel & 0x18) == 0x18;
+    bool outsink = msel & 0x20;
+    int nsec = 1 + tp_u8(&t) % (thorough ? MAXSEC : 8);
+    uint64_t sys0 = (UINT64_C(1) << 44) + tp_u16(&t);
+    int defer_k = defer ? tp_u8(&t) % (nsec + 1) : 0;
+    h = vp_hash_mix(h, 0x5051 | (uint64_t)subR << 16 | (uint64_t)pid << 17 | (uint64_t)cc0 << 32 | (uint64_t)nsec << 40 | (uint64_t)defer << 48 | (uint64_t)outsink << 49);
+    h = vp_hash_mix(h, octetrate ^ tb_rate << 24 ^ (uint64_t)tb_size << 48);
+    cls |= UINT64_C(1) << (subR ? CL_PSI_R : CL_PSI_E);
+    if (do_setcc && !subR) cls |= UINT64_C(1) << CL_SETCC;
+    if (defer && !subR) cls |= UINT64_C(1) << CL_X_DEFER;
+    if (outsink && !subR) cls |= UINT64_C(1) << CL_X_OUTSINK;
+    R("C15/roundtrip path=%s pid=%u octetrate=%llu tb_rate=%llu tb_size=%u mux_interval=%llu first_cc=%u sections=%d sys0=%llu%s%s\n",
+      subR ? "psi sections -> reference packetiser -> ts_decaps" : "psi sections -> ts_encaps (block.mpegtspsi.)", pid,
+      (unsigned long long)octetrate, (unsigned long long)tb_rate, tb_size, (unsigned long long)mux_interval, (cc0 + 1) & 15, nsec, (unsigned long long)sys0,
+      defer && !subR ? " [ubuf manager provided late]" : "", outsink && !subR ? " [output pipe set]" : "");
+
+    /* ---------------- sections ---------------- */
+    size_t total = 0;
+    for (int i = 0; i < nsec; i++) {
+        struct secd *d = &sd[i];
+        memset(d, 0, sizeof *d);
+        uint8_t z = tp_u8(&t);
+        size_t sz;
+        if (z < 12) sz = 3;
+        else if (z < 40) sz = 3 + tp_u8(&t) % 200;
+        else if (z < 110) { int k = 1 + (z - 40) / 10; long v = 184L * k - 1 + (int)(tp_u8(&t) % 5) - 2; sz = v < 3 ? 3 : v; }   /* section + pointer_field around k packets */
+        else if (z < 160) sz = 3 + tp_u16(&t) % 1022;                                   /* up to 1024: PSI proper */
+        else if (z < 210) sz = 3 + tp_u16(&t) % 4096;                                   /* up to 4098: 12-bit section_length */
+        else if (z < 230) sz = (z & 1) ? 4098 : (z & 2) ? 1024 : 4096;
+        else sz = 183 + 184 * (size_t)(z % 4);                                          /* ends exactly with a packet */
+        if (sz > 4098) sz = 4098;
+        d->size = sz; d->off = total; total += sz;
+        uint8_t g = tp_u8(&t);
+        d->pump = g & 1;
+        d->gap = (g & 2) ? tp_u32(&t) % (F27 / 5) : (uint64_t)sz * F27 / octetrate;
+        d->nseg = (g & 12) == 12 ? 1 + ((g >> 4) & 1) : 0;
+        d->seg[0] = 1 + (g >> 5); d->seg[1] = 1 + tp_u8(&t);
+        if (sz > 1024) cls |= UINT64_C(1) << CL_PSI_BIG;
+        if (sz == 3) cls |= UINT64_C(1) << CL_PSI_MIN;
+        if (d->nseg) cls |= UINT64_C(1) << CL_SEGMENTED;
+    }
+    c->cat = malloc(total);
+    c->secbuf = malloc(total + 16); c->secbuf2 = malloc(total + 16);
+    if (!c->cat || !c->secbuf || !c->secbuf2) { free(c->cat); free(c->secbuf); free(c->secbuf2); c->cat = c->secbuf = c->secbuf2 = NULL; fx_clean(fx); return vp_internal(rep, "malloc"); }
+    c->ncat = total;
+    for (int i = 0; i < nsec; i++) {
+        struct secd *d = &sd[i];
+        uint8_t fsel = tp_u8(&t), tid = tp_u8(&t);
+        uint32_t seed = 0x51ed27u + 977u * i + fsel;
+        uint8_t *p = c->cat + d->off;
+        for (size_t k = 0; k < d->size; k++)
+            p[k] = (fsel & 3) == 3 ? ((fsel & 4) ? 0xff : (fsel & 8) ? 0x47 : (uint8_t)(fsel >> 4)) : (uint8_t)(xs(&seed) >> 9);
+        /* header through the reference bit writer: table_id (never 0xff: that is stuffing), section_syntax_indicator,
+         * private_indicator, reserved, 12-bit section_length */
+        uint8_t hd[3]; struct wbits b; wb_init(&b, hd, 3);
+        wb_put(&b, 8, tid == 0xff ? 0x42 : tid);
+        wb_put(&b, 1, fsel >> 7); wb_put(&b, 1, (fsel >> 6) & 1); wb_put(&b, 2, 3);
+        wb_put(&b, 12, d->size - 3);
+        memcpy(p, hd, 3);
+        h = vp_hash_mix(h, (uint64_t)d->size << 24 | (uint64_t)p[0] << 16 | d->pump << 8 | d->nseg << 4 | (fsel & 15));
+        R(" sec%d size=%zu table_id=0x%02x%s segs=%d%s\n", i, d->size, p[0], (fsel & 3) == 3 ? " constant fill" : "", d->nseg + 1, d->pump ? " then pump" : "");
+    }
+    rpsi_init(&c->rpsi, c->secbuf, total + 16);
+    rpsi_init(&c->rpsi2, c->secbuf2, total + 16);
+
+    /* ---------------- pipes ---------------- */
+    struct upipe *enc = NULL, *decaps = NULL;
+    decaps = upipe_void_alloc(upipe_ts_decaps_mgr_alloc(), fx_probe(fx, P_DECAPS));
+    if (!decaps) ret = vp_internal(rep, "pipe allocation");
+    fx_rec_init(fx, &c->tee, P_TEE, NULL);
+    if (!ret && !ubase_check(upipe_set_output(decaps, &c->tee.upipe))) ret = vp_internal(rep, "set_output");
+    if (!ret) {
+        struct uref *dfd = uref_block_flow_alloc_def(fx->fm.uref_mgr, "mpegts.mpegtspsi.");
+        if (!dfd || !ubase_check(upipe_set_flow_def(decaps, dfd))) ret = vp_internal(rep, "ts_decaps refused the flow definition block.mpegts.mpegtspsi.");
+        if (dfd) uref_free(dfd);
+    }
+    if (!ret && !subR) {
+        struct uref *fd = uref_block_flow_alloc_def(fx->fm.uref_mgr, "mpegtspsi.");
+        enc = upipe_void_alloc(upipe_ts_encaps_mgr_alloc(), fx_probe(fx, P_ENC));
+        if (!fd || !enc) ret = vp_internal(rep, "ts_encaps allocation");
+        if (!ret && outsink) {
+            fx_rec_init(fx, &c->outsink, P_OUT, NULL);
+            if (!ubase_check(upipe_set_output(enc, &c->outsink.upipe))) ret = vp_internal(rep, "ts_encaps set_output");
+        }
+        if (!ret) {
+            /* what upipe_ts_mux's psi_pid sets (PID, TB rate) plus the octetrate ts_psi_join computes; no PES attribute */
+            if (defer) fx->defer_mask = 1u << P_ENC | 1u << P_OUT;
+            bool ok = ubase_check(uref_block_flow_set_octetrate(fd, octetrate)) && ubase_check(uref_ts_flow_set_tb_rate(fd, tb_rate)) &&
+                      ubase_check(uref_ts_flow_set_pid(fd, pid));
+            if (!ok) ret = vp_internal(rep, "flow def attributes");
+            else if (!ubase_check(upipe_set_flow_def(enc, fd))) ret = vp_fail(rep, "C15/encaps/psi-flow-def", "ts_encaps refused block.mpegtspsi. with octetrate, tb_rate and PID");
+        }
+        if (fd) uref_free(fd);
+        if (!ret) {
+            upipe_set_max_length(enc, UINT_MAX);
+            if (tb_size) upipe_ts_encaps_set_tb_size(enc, tb_size);
+            if (do_setcc && !ubase_check(upipe_ts_mux_set_cc(enc, cc0))) ret = vp_internal(rep, "set_cc");
+            unsigned got = 99;
+            if (!ret && do_setcc && (!ubase_check(upipe_ts_mux_get_cc(enc, &got)) || got != cc0))
+                ret = vp_fail(rep, "C15/encaps/get-cc", "set_cc(%u) then get_cc gives %u", cc0, got);
+        }
+    }
+
+    /* ---------------- run ---------------- */
+    struct rstate st;
+    memset(&st, 0, sizeof st);
+    st.cc = cc0; st.pid = st.pid2 = pid; st.decaps = decaps; st.psi = true; st.pcr_forbidden = true;
+    uint64_t T = 0, cr_sys = sys0;
+    size_t maxpk = total / 100 + 30 * (size_t)nsec + 64;
+    if (!subR) {
+        for (int i = 0; i <= nsec && !ret; i++) {
+            if (defer && i == defer_k) { R(" ubuf manager provided\n"); fx_provide_deferred(fx); }
+            bool pump_now = true;
+            if (i < nsec) {
+                struct secd *d = &sd[i];
+                struct uref *uref = fx_uref_segs(fx, c->cat + d->off, d->size, d->seg, d->nseg);
+                if (!uref) { ret = vp_internal(rep, "section uref"); break; }
+                cr_sys += d->gap;
+                uref_clock_set_cr_sys(uref, cr_sys);
+                uref_block_set_start(uref);
+                upipe_input(enc, uref, NULL);
+                pump_now = d->pump || i == nsec - 1;
+            } else {
+                if (!ubase_check(upipe_ts_encaps_eos(enc))) { ret = vp_internal(rep, "eos"); break; }
+            }
+            if (!pump_now) continue;
+            while (!ret && fx->st_cr_sys != UINT64_MAX) {
+                if (!fx->st_ready) { FAIL("C15/encaps/psi-not-ready", "ts_encaps holds a PSI section (status cr_sys=%llu) but does not report it ready", (unsigned long long)fx->st_cr_sys); break; }
+                if (fx->st_cr_sys > T) T = fx->st_cr_sys;
+                struct ubuf *ubuf = NULL; uint64_t dts_sys = 0;
+                if (!ubase_check(upipe_ts_encaps_splice(enc, T, T + mux_interval, &ubuf, &dts_sys)) || !ubuf) {
+                    FAIL("C15/encaps/splice", "upipe_ts_encaps_splice(%llu) failed or returned no packet (status cr_sys=%llu ready=%d)", (unsigned long long)T, (unsigned long long)fx->st_cr_sys, fx->st_ready);
+                    break;
+                }
+                ret = take_packet(c, rep, &st, ubuf, T, render);
+                if (!ret && st.npkt > maxpk) FAIL("C15/encaps/no-progress", "%zu packets emitted for %zu octets in %d sections", st.npkt, total, nsec);
+            }
+        }
+        if (!ret && enc) {
+            unsigned got = 99;
+            if (st.npkt && (!ubase_check(upipe_ts_mux_get_cc(enc, &got)) || got != st.cc))
+                FAIL("C15/encaps/get-cc", "get_cc gives %u, the last packet with payload carried %u", got, st.cc);
+            struct upipe *o = NULL;
+            if (!ret && outsink && (!ubase_check(upipe_get_output(enc, &o)) || o != &c->outsink.upipe)) FAIL("C15/encaps/get-output", "get_output does not return the pipe given to set_output");
+        }
+        fx->ndeferred = 0;
+        if (enc) { upipe_release(enc); enc = NULL; }
+        if (!ret && fx->st_cr_sys != UINT64_MAX)
+            FAIL("C15/encaps/data-left", "after eos and draining, ts_encaps still reports data (cr_sys=%llu ready=%d)", (unsigned long long)fx->st_cr_sys, fx->st_ready);
+        if (!ret && (!fx->got_last_cc || fx->last_cc_event != st.cc))
+            FAIL("C15/encaps/last-cc", "last_cc event says %u (thrown=%d), last packet with payload carried %u", fx->last_cc_event, fx->got_last_cc, st.cc);
+        if (!ret && outsink && c->outsink.nchunks)
+            FAIL("C15/encaps/output-data", "the output pipe of ts_encaps received %zu buffers (packets leave through splice only)", c->outsink.nchunks);
+    } else {
+        /* reference section packetiser (ISO/IEC 13818-1 2.4.4): sections back to back; the first payload octet of a packet
+         * in which a section starts is the pointer_field (octets of the previous section's tail before that start); after
+         * a section, at the generator's choice, 0xff stuffing to the end of the packet or the next section at once */
+        uint8_t pay[184]; unsigned pn = 0; bool pusi = false;
+#define PSI_EMIT() do { \
+            struct wts w; memset(&w, 0, sizeof w); uint8_t pk[R_TS]; \
+            if (pn < 184) memset(pay + pn, 0xff, 184 - pn); \
+            w.pid = pid; w.pusi = pusi; w.has_payload = true; w.cc = (st.cc + 1) & 15; w.payload = pay; w.pay_len = 184; \
+            if (!wts_build(&w, pk)) ret = vp_internal(rep, "reference section packetiser"); \
+            else ret = on_packet(c, rep, &st, pk, 0, render); \
+            pn = 0; pusi = false; } while (0)
+        for (int si = 0; si < nsec && !ret; si++) {
+            /* room for the pointer_field (if this packet has none yet) and at least the first octet of the section? */
+            if (pn && (pusi ? pn >= 184 : pn >= 183)) PSI_EMIT();
+            if (ret) break;
+            if (!pusi) {
+                if (pn) memmove(pay + 1, pay, pn);
+                pay[0] = pn; pn++; pusi = true;
+            }
+            size_t spos = 0;
+            while (spos < sd[si].size && !ret) {
+                if (pn == 184) PSI_EMIT();
+                size_t room = 184 - pn, rest = sd[si].size - spos, n = rest < room ? rest : room;
+                memcpy(pay + pn, c->cat + sd[si].off + spos, n);
+                pn += n; spos += n;
+            }
+            uint8_t sh = tp_u8(&t);
+            if (!ret && (pn == 184 || (sh & 3) == 1 || si == nsec - 1)) PSI_EMIT();
+        }
+#undef PSI_EMIT
+    }
+    if (decaps) upipe_release(decaps);
+    if (!ret && (fx->harness_oom || fx->ev_overflow)) ret = vp_internal(rep, "harness recorder overflow");
+
+    /* ---------------- oracles ---------------- */
+    if (!ret && c->tee.nchunks && strcmp(c->tee.flowdef, "block.mpegtspsi."))
+        ret = vp_fail(rep, "C15/decaps/flow-def", "ts_decaps given block.mpegts.mpegtspsi. announces '%s' downstream, expected block.mpegtspsi.", c->tee.flowdef);
+    if (!ret) { rpsi_end(&c->rpsi); ret = psi_compare(c, rep, &c->rpsi, subR ? "reference-packets" : "emitted-packets", sd, nsec, c->cat); }
+    if (!ret) {
+        struct fx_rec *Tt = &c->tee;
+        if (Tt->nbytes != c->nes || memcmp(Tt->bytes, c->es, c->nes)) {
+            size_t d = 0; while (d < Tt->nbytes && d < c->nes && Tt->bytes[d] == c->es[d]) d++;
+            FAIL("C15/upipe/ts-payload", "ts_decaps output %zu payload octets, the reference parser %zu; first difference at %zu", Tt->nbytes, c->nes, d);
+        }
+        for (size_t q = 0; q < Tt->nchunks && !ret; q++) {
+            struct fx_chunk *ch = &Tt->chunks[q];
+            if (ch->tag < 0 || (size_t)ch->tag >= st.npkt) { FAIL("C15/upipe/untagged", "ts_decaps output outside any packet"); break; }
+            if (!!(ch->flags & FXC_START) != st.meta[ch->tag].pusi) FAIL("C15/upipe/unit-start", "packet %d: payload_unit_start=%d, ts_decaps start flag=%d", ch->tag, st.meta[ch->tag].pusi, !!(ch->flags & FXC_START));
+            if ((ch->flags & FXC_DISC) && q > 0) FAIL("C15/upipe/spurious-discontinuity", "packet %d: ts_decaps flags a discontinuity in a gap-free stream", ch->tag);
+            if (ch->flags & (FXC_ERROR | FXC_RAND)) FAIL("C15/upipe/error-flag", "packet %d: error or random flag", ch->tag);
+            if (!ret && ch->len) rpsi_packet(&c->rpsi2, Tt->bytes + ch->off, ch->len, ch->flags & FXC_START);
+        }
+        if (!ret) { rpsi_end(&c->rpsi2); ret = psi_compare(c, rep, &c->rpsi2, "ts_decaps-output", sd, nsec, c->cat); }
+    }
+    if (c->rpsi.saw_span) cls |= UINT64_C(1) << CL_PSI_SPAN;
+    if (c->rpsi.saw_pad) cls |= UINT64_C(1) << CL_PSI_PAD;
+    if (c->rpsi.saw_exact) cls |= UINT64_C(1) << CL_PSI_EXACT;
+    if (c->rpsi.saw_multi) cls |= UINT64_C(1) << CL_PSI_MULTI;
+    if (c->rpsi.saw_pointer_nz) cls |= UINT64_C(1) << CL_PSI_PTR;
+
+    fx_rec_clean(&c->tee); fx_rec_clean(&c->outsink);
+    free(st.meta); free(c->cat); free(c->secbuf); free(c->secbuf2);
+    c->cat = c->secbuf = c->secbuf2 = NULL;
+    const char *leak = fx_clean(fx);
+    if (leak && !ret) ret = vp_fail(rep, "C15/leak/roundtrip", "after releasing every pipe: %s", leak);
+    rep->case_hash = h;
+    rep->classes = cls;
+    /* NT for sections: one spanning >= 3 packets with stuffing after it, or several sections in one packet */
+    rep->nontrivial = (c->rpsi.saw_span && c->rpsi.saw_pad && st.npkt >= 3) || c->rpsi.saw_multi;
+    return ret;
+}
+
+/* ------------------------------------------------------------------------------------------------ access units */
+
+/* flow definition for the encapsulation pipe under configuration k */
+static struct uref *make_flow_def(struct fx *fx, bool video, bool pathP, const struct cfg *cf, uint64_t min_dur, uint64_t octetrate,
+                                  uint64_t tb_rate, bool aligned, bool maxdelay, uint64_t max_delay)
+{
+    struct uref *fd = uref_block_flow_alloc_def(fx->fm.uref_mgr, video ? "h264.pic." : "mp2.sound.");
+    if (!fd) return NULL;
+    bool ok = ubase_check(uref_ts_flow_set_pes_id(fd, cf->pes_id));
+    if (cf->min_hdr) ok = ok && ubase_check(uref_ts_flow_set_pes_header(fd, cf->min_hdr));
+    if (min_dur) ok = ok && ubase_check(uref_ts_flow_set_pes_min_duration(fd, min_dur));
+    if (!pathP) {
+        ok = ok && ubase_check(uref_block_flow_set_octetrate(fd, octetrate)) && ubase_check(uref_ts_flow_set_tb_rate(fd, tb_rate)) &&
+             ubase_check(uref_ts_flow_set_pid(fd, cf->pid));
+        if (aligned) ok = ok && ubase_check(uref_ts_flow_set_pes_alignment(fd));
+        if (maxdelay) ok = ok && ubase_check(uref_ts_flow_set_max_delay(fd, max_delay));
+    }
+    if (!ok) { uref_free(fd); return NULL; }
+    return fd;
+}
+
+/* flow definitions the pipe must refuse (documented input: block., and for ts_encaps octetrate != 0, TB rate, PID, and a PES
+ * stream id unless PSI); the pipe stays usable. Returns the number accepted. */
+static int try_bad_flow_defs(struct fx *fx, struct upipe *enc, bool pathP, const struct uref *good, char *what, size_t whatsz)
+{
+    int accepted = 0;
+    what[0] = 0;
+    if (ubase_check(upipe_set_flow_def(enc, NULL))) { accepted++; snprintf(what, whatsz, "NULL"); }
+    for (int v = 0; v < (pathP ? 2 : 6); v++) {
+        struct uref *fd = uref_dup((struct uref *)good);
+        if (!fd) return -1;
+        const char *name;
+        switch (v) {
+        case 0: uref_flow_set_def(fd, "pic."); name = "def pic. (not block.)"; break;
+        case 1: uref_ts_flow_delete_pes_id(fd); name = "no PES stream id"; break;
+        case 2: uref_block_flow_delete_octetrate(fd); name = "no octetrate"; break;
+        case 3: uref_block_flow_set_octetrate(fd, 0); name = "octetrate 0"; break;
+        case 4: uref_ts_flow_delete_tb_rate(fd); name = "no TB rate"; break;
+        default: uref_ts_flow_delete_pid(fd); name = "no PID"; break;
+        }
+        if (ubase_check(upipe_set_flow_def(enc, fd))) { accepted++; snprintf(what, whatsz, "%s", name); }
+        uref_free(fd);
+    }
+    return accepted;
+}
+
+static int au_containing(const struct ctx *c, size_t off)
+{
+    for (int i = 0; i < c->nau; i++) if (off >= c->au[i].off && off < c->au[i].off + c->au[i].size) return i;
+    return -1;
+}
+
 static int run(const uint8_t *tape_, size_t len, struct vp_report *rep, unsigned flags)
 {
     struct ctx *c = &C;
@@ -260,16 +699,19 @@ static int run(const uint8_t *tape_, size_t len, struct vp_report *rep, unsigned
     bool render = flags & VP_RENDER;
     bool thorough = flags & VP_THOROUGH;
     int ret = 0;
-    uint32_t cls = 0;
+    uint64_t cls = 0;
     uint64_t h = VP_HASH_INIT;
     struct fx *fx = &c->fx;
 
     c->nau = 0; c->ncat = 0; c->nes = 0; c->npstart = 0; c->nva = c->nvb = 0;
     c->cat = NULL; c->va = c->vb = NULL;
+    memset(&c->offs, 0, sizeof c->offs);
     if (fx_init(fx) != 0) return vp_internal(rep, "fx_init");
 
     /* ---------------- configuration ---------------- */
-    bool pathP = (tp_u8(&t) % 4) == 3;
+    uint8_t b0 = tp_u8(&t);
+    if (((b0 >> 2) & 7) == 5 || ((b0 >> 2) & 7) == 6) return run_psi(c, &t, rep, flags, (b0 % 4) == 3);
+    bool pathP = (b0 % 4) == 3;
     uint8_t ssel = tp_u8(&t);
     unsigned pes_id;
     switch (ssel % 8) {
@@ -282,9 +724,8 @@ static int run(const uint8_t *tape_, size_t len, struct vp_report *rep, unsigned
     }
     bool video = (pes_id & 0xf0) == 0xe0;
     bool priv2 = pes_id == 0xbf;
-    static const uint16_t pids[] = { 68, 0x100, 0x1ffe, 16, 0x1000, 0x0fff, 32, 0x1abc };
     uint8_t psel = tp_u8(&t);
-    unsigned pid = (psel & 0x80) ? 16 + (tp_u16(&t) % (0x1fff - 16)) : pids[psel % 8];
+    unsigned pid = (psel & 0x80) ? 16 + (tp_u16(&t) % (0x1fff - 16)) : pid_table[psel % 8];
     uint8_t csel = tp_u8(&t);
     bool aligned = pathP || (csel & 3) != 3;
     bool live = (csel & 12) == 12;
@@ -322,19 +763,19 @@ static int run(const uint8_t *tape_, size_t len, struct vp_report *rep, unsigned
     h = vp_hash_mix(h, pathP | pes_id << 1 | pid << 9 | aligned << 22 | live << 23 | (uint64_t)min_hdr << 24 | (uint64_t)cc0 << 32 | (uint64_t)nau << 40);
     h = vp_hash_mix(h, min_dur ^ pcr_interval << 20 ^ octetrate << 40);
     h = vp_hash_mix(h, prog0);
-    cls |= 1u << (pathP ? CL_PATH_P : CL_PATH_E);
-    if (!aligned) cls |= 1u << CL_NOALIGN;
-    if (min_hdr > (priv2 ? 6u : 9u)) cls |= 1u << CL_MINHDR;
-    if (priv2) cls |= 1u << CL_PRIV2;
-    if (live && !pathP) cls |= 1u << CL_LIVE;
-    if (do_setcc && !pathP) cls |= 1u << CL_SETCC;
+    cls |= UINT64_C(1) << (pathP ? CL_PATH_P : CL_PATH_E);
+    if (!aligned) cls |= UINT64_C(1) << CL_NOALIGN;
+    if (min_hdr > (priv2 ? 6u : 9u)) cls |= UINT64_C(1) << CL_MINHDR;
+    if (priv2) cls |= UINT64_C(1) << CL_PRIV2;
+    if (live && !pathP) cls |= UINT64_C(1) << CL_LIVE;
+    if (do_setcc && !pathP) cls |= UINT64_C(1) << CL_SETCC;
     R("C15/roundtrip path=%s pes_id=0x%02x pid=%u %s min_pes_header=%u min_pes_duration=%llu octetrate=%llu tb_rate=%llu tb_size=%u pcr_interval=%llu mux_interval=%llu mode=%s first_cc=%u aus=%d sys0=%llu prog0=%llu\n",
       pathP ? "ts_pes_encaps" : "ts_encaps", pes_id, pid, aligned ? "aligned" : "not-aligned", min_hdr, (unsigned long long)min_dur,
       (unsigned long long)octetrate, (unsigned long long)tb_rate, tb_size, (unsigned long long)pcr_interval, (unsigned long long)mux_interval,
       live ? "live" : "file", (cc0 + 1) & 15, nau, (unsigned long long)sys0, (unsigned long long)prog0);
 
     /* ---------------- access units ---------------- */
-    struct audesc { size_t size; uint8_t fill; int mode; uint64_t gap, cr_dts, dts_pts, dur; int nseg; size_t seg[2]; bool pump; } ad[MAXAU];
+    struct audesc { size_t size; uint8_t fill; int mode; uint64_t gap, cr_dts, dts_pts, dur; int nseg; size_t seg[2]; bool pump, force_delay; } ad[MAXAU];
     size_t max_hdr = min_hdr > 19 ? min_hdr : 19;
     size_t cap_nonvideo = 65535 + 6 - max_hdr;
     if (!aligned) cap_nonvideo -= 184;        /* the tail of the previous unit may be moved into this PES */
@@ -391,12 +832,121 @@ static int run(const uint8_t *tape_, size_t len, struct vp_report *rep, unsigned
         total += sz;
         h = vp_hash_mix(h, (uint64_t)sz << 20 | d->mode << 16 | rnd << 15 | dsc << 14 | d->nseg << 12 | d->pump << 11 | (d->fill & 3));
         h = vp_hash_mix(h, d->dts_pts ^ d->gap << 24);
-        if (sz == 1) cls |= 1u << CL_TINY;
-        if (sz + 32 > 65535 && sz < 65535 + 32) cls |= 1u << CL_NEAR64K;
-        if (rnd) cls |= 1u << CL_RANDOM;
-        if (dsc) cls |= 1u << CL_DISC;
-        if (d->nseg) cls |= 1u << CL_SEGMENTED;
+        if (sz == 1) cls |= UINT64_C(1) << CL_TINY;
+        if (sz + 32 > 65535 && sz < 65535 + 32) cls |= UINT64_C(1) << CL_NEAR64K;
+        if (rnd) cls |= UINT64_C(1) << CL_RANDOM;
+        if (dsc) cls |= UINT64_C(1) << CL_DISC;
+        if (d->nseg) cls |= UINT64_C(1) << CL_SEGMENTED;
     }
+
+    /* ---------------- extension block (an exhausted tape gives none) ---------------- */
+    struct ext X;
+    memset(&X, 0, sizeof X);
+    c->cfg[0].pid = c->cfg[1].pid = pid; c->cfg[0].pes_id = c->cfg[1].pes_id = pes_id; c->cfg[0].min_hdr = c->cfg[1].min_hdr = min_hdr;
+    uint8_t x0 = tp_u8(&t);
+    if (x0) {
+        X.any = true;
+        if (x0 & 1) { X.defer = true; X.defer_k = tp_u8(&t) % (nau + 1); }
+        if ((x0 & 2) && !pathP) X.outsink = true;
+        /* ts_pes_encaps keeps itself alive while it buffers: its owner may release it before the manager arrives */
+        if ((x0 & 3) == 3 && pathP) { X.early_release = true; X.defer_k = nau; }
+        if ((x0 & 4) && !pathP) {
+            X.setcr = true;
+            uint8_t v = tp_u8(&t);
+            switch (v % 6) {
+            case 0: X.cr_v = F27 * 3600; break;
+            case 1: X.cr_v = 0; break;
+            case 2: X.cr_v = M33 - F27 / 2 - tp_u16(&t); break;           /* the coded dates wrap during the case */
+            case 3: X.cr_v = prog0; break;
+            case 4: X.cr_v = (uint64_t)tp_u32(&t) * 300 + (v >> 3); break;
+            default: X.cr_v = M33 * 2 + tp_u32(&t); break;
+            }
+        }
+        if ((x0 & 8) && !pathP) {
+            X.nops = 1 + tp_u8(&t) % 4;
+            for (int k = 0; k < X.nops; k++) {
+                struct extop *o = &X.op[k];
+                uint8_t kd = tp_u8(&t), vv = tp_u8(&t);
+                { static const uint8_t kmap[8] = { XO_PCRIV, XO_TBSIZE, XO_SPLICE_FLUSH, XO_UPIPE_FLUSH, XO_MAXLEN, XO_PCROFF, XO_SPLICE_FLUSH, XO_UPIPE_FLUSH };
+                  o->kind = kmap[kd % 8]; }
+                o->at = (kd / 8) % (nau + 1); o->done = false;
+                switch (o->kind) {
+                case XO_PCRIV: { static const uint64_t iv[] = { F27 / 10, F27 / 25, F27 / 1000, F27 * 10, 1037, F27 / 50 }; o->v = iv[vv % 6]; break; }
+                case XO_TBSIZE: { static const unsigned tb[] = { 512, 1640, 4096, 188, 1316 }; o->v = tb[vv % 5]; break; }
+                case XO_MAXLEN: { static const unsigned ml[] = { UINT_MAX, 1000, 255, 64 }; o->v = ml[vv % 4]; break; }
+                default: o->v = vv; break;
+                }
+            }
+        }
+        if ((x0 & 16) && !pathP) {
+            static const uint64_t md[] = { F27 / 10, F27 * 2, F27 / 2, F27 * 10, 1 };
+            X.maxdelay = true; X.max_delay = md[tp_u8(&t) % 5];
+        }
+        if (x0 & 32) X.getters = true;
+        if ((x0 & 64) && nau >= 2) {
+            X.fdchange = true;
+            uint8_t f0 = tp_u8(&t), f1 = tp_u8(&t);
+            X.fd_at = 1 + f0 % (nau - 1);
+            c->cfg[1].pid = (f1 & 8) ? pid : pid_table[f1 % 8];
+            if (video) c->cfg[1].pes_id = 0xe0 + (f0 >> 4) % 16;
+            else if ((pes_id & 0xe0) == 0xc0) c->cfg[1].pes_id = 0xc0 + (f0 >> 3) % 32;
+            if (priv2) c->cfg[1].min_hdr = f1 >> 5 > 6 ? 0 : f1 >> 5;
+            else { unsigned mh[] = { 0, 9, 14, 19, min_hdr }; c->cfg[1].min_hdr = mh[(f1 >> 4) % 5]; }
+            X.octetrate2 = (f0 & 4) ? octetrate * 2 : (f0 & 8) ? (octetrate / 2 ? octetrate / 2 : 1) : octetrate;
+            X.tb_rate2 = X.octetrate2 + X.octetrate2 * (f1 & 3) / 5;
+        }
+        if (x0 & 128) X.badfd = true;
+    }
+    /* preconditions of the commands of the script (what upipe_ts_mux guarantees when it issues them) */
+    for (int k = 0; k < X.nops; k++)
+        if ((X.op[k].kind == XO_SPLICE_FLUSH || X.op[k].kind == XO_UPIPE_FLUSH) && aligned && !pathP) {
+            /* the flushes are modelled for the plain mode only (file mode, no aggregation): take it when one is scripted */
+            if (live) { live = false; cls &= ~(UINT64_C(1) << CL_LIVE); }
+            min_dur = 0;
+        }
+    bool simple_mode = !pathP && aligned && !min_dur && !live;      /* one PES per unit, every held unit is unstarted after a drain */
+    bool any_pcr = pcr_interval != 0, any_flush = false;
+    for (int k = 0; k < X.nops; k++) {
+        if (X.op[k].kind == XO_PCRIV) any_pcr = true;
+        if ((X.op[k].kind == XO_SPLICE_FLUSH || X.op[k].kind == XO_UPIPE_FLUSH) && !simple_mode) X.op[k].done = true;     /* not issued */
+        if (X.op[k].kind == XO_SPLICE_FLUSH && !X.op[k].done) any_flush = true;
+        if ((X.op[k].kind == XO_SPLICE_FLUSH || X.op[k].kind == XO_UPIPE_FLUSH) && !X.op[k].done) {
+            /* let units accumulate before the flush: no pump after the two units before it, one after its own */
+            int at = X.op[k].at < nau ? X.op[k].at : nau - 1;
+            ad[at].pump = true;
+            if (at >= 1) ad[at - 1].pump = false;
+            if (at >= 2) ad[at - 2].pump = false;
+        }
+    }
+    for (int i = 0; i < nau; i++) {
+        if (!pathP && any_pcr && ad[i].mode >= 2) ad[i].mode = 0;                    /* a PCR PID needs cr_prog on every unit */
+        if (any_flush) { if (ad[i].mode >= 3) ad[i].mode = 0; ad[i].force_delay = true; }    /* every unit has a dts_sys (upipe_ts_tstd) */
+        c->au[i].cfg = X.fdchange && i >= X.fd_at;
+    }
+    h = vp_hash_mix(h, x0 | (uint64_t)X.defer_k << 8 | (uint64_t)X.fd_at << 16 | (uint64_t)X.nops << 24 | (uint64_t)c->cfg[1].pid << 32 | (uint64_t)c->cfg[1].pes_id << 48);
+    for (int k = 0; k < X.nops; k++) h = vp_hash_mix(h, X.op[k].kind | X.op[k].at << 8 | X.op[k].v << 16);
+    if (X.setcr) h = vp_hash_mix(h, X.cr_v);
+    if (X.any) {
+        R(" extension:%s%s%s%s%s%s%s\n", X.defer ? " ubuf-manager-late" : "", X.outsink ? " output-pipe" : "", X.setcr ? " set_cr_prog" : "",
+          X.maxdelay ? " max_delay" : "", X.getters ? " getters" : "", X.fdchange ? " flow-def-change" : "", X.badfd ? " refused-flow-defs" : "");
+        if (X.defer) R("  ubuf manager provided before unit %d%s\n", X.defer_k, X.early_release ? ", after the pipe was released by its owner" : "");
+        if (X.setcr) R("  set_cr_prog(%llu) before the first splice\n", (unsigned long long)X.cr_v);
+        if (X.maxdelay) R("  max_delay=%llu\n", (unsigned long long)X.max_delay);
+        if (X.fdchange) R("  before au%d: flow definition pid=%u pes_id=0x%02x min_pes_header=%u octetrate=%llu tb_rate=%llu\n", X.fd_at, c->cfg[1].pid, c->cfg[1].pes_id,
+                          c->cfg[1].min_hdr, (unsigned long long)X.octetrate2, (unsigned long long)X.tb_rate2);
+        for (int k = 0; k < X.nops; k++) {
+            static const char *const kn[] = { "set_pcr_interval", "set_tb_size", "splice(NULL): drop late units", "UPIPE_FLUSH", "set_max_length", "set_pcr_interval(0)" };
+            R("  at %d: %s %llu%s\n", X.op[k].at, kn[X.op[k].kind], (unsigned long long)X.op[k].v, X.op[k].done ? " (not issued in this mode)" : "");
+        }
+    }
+    if (X.defer) cls |= UINT64_C(1) << CL_X_DEFER;
+    if (X.early_release) cls |= UINT64_C(1) << CL_X_EARLY_RELEASE;
+    if (X.outsink) cls |= UINT64_C(1) << CL_X_OUTSINK;
+    if (X.maxdelay) cls |= UINT64_C(1) << CL_X_MAXDELAY;
+    if (X.getters) cls |= UINT64_C(1) << CL_X_GETTERS;
+    if (X.fdchange) cls |= UINT64_C(1) << CL_X_FDCHANGE;
+    if (X.badfd) cls |= UINT64_C(1) << CL_X_BADFD;
+
     c->nau = nau;
     c->ncat = total;
     c->cat = malloc(total ? total : 1);
@@ -418,40 +968,80 @@ static int run(const uint8_t *tape_, size_t len, struct vp_report *rep, unsigned
         if (!ubase_check(upipe_set_output(pesd, &c->sink.upipe)) || !ubase_check(upipe_set_output(decaps, &c->tee.upipe)))
             ret = vp_internal(rep, "set_output");
     }
-    struct uref *fd = NULL;
+    struct uref *fd = NULL, *fd2 = NULL;
     if (!ret) {
-        fd = uref_block_flow_alloc_def(fx->fm.uref_mgr, video ? "h264.pic." : "mp2.sound.");
-        if (!fd) ret = vp_internal(rep, "flow def");
+        fd = make_flow_def(fx, video, pathP, &c->cfg[0], min_dur, octetrate, tb_rate, aligned, X.maxdelay, X.max_delay);
+        if (X.fdchange) fd2 = make_flow_def(fx, video, pathP, &c->cfg[1], min_dur, X.octetrate2, X.tb_rate2, aligned, X.maxdelay, X.max_delay);
+        if (!fd || (X.fdchange && !fd2)) ret = vp_internal(rep, "flow def");
     }
-    if (!ret) {
-        bool ok = ubase_check(uref_ts_flow_set_pes_id(fd, pes_id));
-        if (min_hdr) ok = ok && ubase_check(uref_ts_flow_set_pes_header(fd, min_hdr));
-        if (min_dur) ok = ok && ubase_check(uref_ts_flow_set_pes_min_duration(fd, min_dur));
-        if (!pathP) {
-            ok = ok && ubase_check(uref_block_flow_set_octetrate(fd, octetrate)) && ubase_check(uref_ts_flow_set_tb_rate(fd, tb_rate)) &&
-                 ubase_check(uref_ts_flow_set_pid(fd, pid));
-            if (aligned) ok = ok && ubase_check(uref_ts_flow_set_pes_alignment(fd));
-        }
-        if (!ok) ret = vp_internal(rep, "flow def attributes");
-    }
+    uint64_t pcr_iv = pcr_interval;          /* the PCR interval in force (model) */
+    bool pcr_continuous = true;              /* it has been non-zero since before the first unit */
+    unsigned tb_size_now = tb_size ? tb_size : 512;
     if (!ret) {
         if (pathP) {
             fx_rec_init(fx, &c->sinka, P_SINKA, NULL);
             enc = upipe_void_alloc(upipe_ts_pese_mgr_alloc(), fx_probe(fx, P_ENC));
-            if (!enc || !ubase_check(upipe_set_output(enc, &c->sinka.upipe)) || !ubase_check(upipe_set_flow_def(enc, fd)))
-                ret = vp_internal(rep, "ts_pes_encaps setup");
+            if (!enc || !ubase_check(upipe_set_output(enc, &c->sinka.upipe))) ret = vp_internal(rep, "ts_pes_encaps setup");
         } else {
             enc = upipe_void_alloc(upipe_ts_encaps_mgr_alloc(), fx_probe(fx, P_ENC));
-            if (!enc || !ubase_check(upipe_set_flow_def(enc, fd))) ret = vp_internal(rep, "ts_encaps setup (flow def refused)");
-            if (!ret) {
-                upipe_set_max_length(enc, UINT_MAX);
-                if (tb_size) upipe_ts_encaps_set_tb_size(enc, tb_size);
-                if (pcr_interval && !ubase_check(upipe_ts_mux_set_pcr_interval(enc, pcr_interval))) ret = vp_internal(rep, "set_pcr_interval");
-                if (do_setcc && !ubase_check(upipe_ts_mux_set_cc(enc, cc0))) ret = vp_internal(rep, "set_cc");
+            if (!enc) ret = vp_internal(rep, "ts_encaps setup");
+            if (!ret && X.outsink) {
+                fx_rec_init(fx, &c->outsink, P_OUT, NULL);
+                if (!ubase_check(upipe_set_output(enc, &c->outsink.upipe))) ret = vp_internal(rep, "ts_encaps set_output");
+            }
+        }
+        if (!ret && X.badfd) {
+            char what[48];
+            int acc = try_bad_flow_defs(fx, enc, pathP, fd, what, sizeof what);
+            if (acc < 0) ret = vp_internal(rep, "uref_dup");
+            else if (acc) FAIL("C15/encaps/bad-flow-def-accepted", "%s accepted a flow definition it documents as invalid: %s", pathP ? "ts_pes_encaps" : "ts_encaps", what);
+            if (!ret && fx->st_cr_sys != UINT64_MAX) FAIL("C15/encaps/bad-flow-def-accepted", "a refused flow definition left data in ts_encaps");
+        }
+        if (!ret) {
+            if (X.defer) fx->defer_mask = 1u << P_ENC | 1u << P_OUT | 1u << P_SINKA;
+            if (!ubase_check(upipe_set_flow_def(enc, fd))) ret = vp_internal(rep, "%s setup (flow def refused)", pathP ? "ts_pes_encaps" : "ts_encaps");
+        }
+        if (!ret && !pathP) {
+            upipe_set_max_length(enc, UINT_MAX);
+            if (tb_size) upipe_ts_encaps_set_tb_size(enc, tb_size);
+            if (pcr_interval && !ubase_check(upipe_ts_mux_set_pcr_interval(enc, pcr_interval))) ret = vp_internal(rep, "set_pcr_interval");
+            if (do_setcc && !ubase_check(upipe_ts_mux_set_cc(enc, cc0))) ret = vp_internal(rep, "set_cc");
+        }
+        if (!ret && X.getters) {
+            if (!pathP) {
+                uint64_t iv = 12345; unsigned cc = 99, ml = 0; struct upipe *o = (struct upipe *)&C;
+                if (!ubase_check(upipe_ts_mux_get_pcr_interval(enc, &iv)) || iv != pcr_interval) FAIL("C15/encaps/get-pcr-interval", "set_pcr_interval(%llu) then get_pcr_interval gives %llu", (unsigned long long)pcr_interval, (unsigned long long)iv);
+                if (do_setcc && (!ubase_check(upipe_ts_mux_get_cc(enc, &cc)) || cc != cc0)) FAIL("C15/encaps/get-cc", "set_cc(%u) then get_cc gives %u", cc0, cc);
+                if (!ubase_check(upipe_get_max_length(enc, &ml)) || ml != UINT_MAX) FAIL("C15/encaps/get-max-length", "set_max_length(UINT_MAX) then get_max_length gives %u", ml);
+                if (!ubase_check(upipe_get_output(enc, &o)) || o != (X.outsink ? &c->outsink.upipe : NULL)) FAIL("C15/encaps/get-output", "get_output does not return the pipe given to set_output");
+                /* a command carrying another pipe type's signature is not for this pipe: refused, nothing changes */
+                if (ubase_check(upipe_control(enc, UPIPE_TS_MUX_SET_CC, UPIPE_TS_ENCAPS_SIGNATURE, (unsigned)((cc0 + 5) & 15))) ||
+                    ubase_check(upipe_control(enc, UPIPE_TS_ENCAPS_SET_TB_SIZE, UPIPE_TS_MUX_SIGNATURE, 188u)) ||
+                    ubase_check(upipe_control(enc, UPIPE_END_PREROLL)))
+                    FAIL("C15/encaps/foreign-command", "ts_encaps accepted a command with a foreign signature / an unknown command");
+                if (!ret && do_setcc && (!ubase_check(upipe_ts_mux_get_cc(enc, &cc)) || cc != cc0)) FAIL("C15/encaps/get-cc", "a refused set_cc changed the counter to %u", cc);
+                /* nothing is held yet: set_cr_prog has no unit to date and says so; without a buffer manager there is no packet */
+                if (ubase_check(upipe_ts_mux_set_cr_prog(enc, X.cr_v))) FAIL("C15/encaps/set-cr-prog", "set_cr_prog succeeded although no unit is held");
+                if (!ret && X.defer) {
+                    struct ubuf *ub = NULL; uint64_t ds = 0;
+                    if (ubase_check(upipe_ts_encaps_splice(enc, sys0, sys0, &ub, &ds)) || ub) { FAIL("C15/encaps/splice", "upipe_ts_encaps_splice gave a packet before any buffer manager was provided"); if (ub) ubuf_free(ub); }
+                }
+                /* requests of an upstream pipe are answered (through the probes: ts_encaps has no data output) */
+                if (!ret) { const char *bad = fx_request_roundtrip(enc, fd, !X.defer); if (bad) FAIL("C15/encaps/request", "ts_encaps: %s", bad); }
+                /* names of the pipe's own commands and event (used by the logging probes) */
+                const char *n1 = upipe_command_str(enc, UPIPE_TS_ENCAPS_SPLICE), *n2 = upipe_command_str(enc, UPIPE_TS_ENCAPS_SET_TB_SIZE),
+                           *n3 = upipe_command_str(enc, UPIPE_TS_ENCAPS_EOS), *n4 = upipe_event_str(enc, UPROBE_TS_ENCAPS_STATUS);
+                if (!n1 || strcmp(n1, "UPIPE_TS_ENCAPS_SPLICE") || !n2 || strcmp(n2, "UPIPE_TS_ENCAPS_SET_TB_SIZE") || !n3 || strcmp(n3, "UPIPE_TS_ENCAPS_EOS") ||
+                    !n4 || strcmp(n4, "UPROBE_TS_ENCAPS_STATUS") || upipe_command_str(enc, UPIPE_TS_ENCAPS_EOS + 1))
+                    FAIL("C15/encaps/command-names", "ts_encaps misnames its commands / event: %s %s %s %s", n1 ? n1 : "(null)", n2 ? n2 : "(null)", n3 ? n3 : "(null)", n4 ? n4 : "(null)");
+                (void)upipe_command_str(enc, UPIPE_TS_MUX_SET_CC); (void)upipe_event_str(enc, UPROBE_TS_MUX_LAST_CC);
+            } else {
+                struct upipe *o = NULL;
+                if (!ubase_check(upipe_get_output(enc, &o)) || o != &c->sinka.upipe) FAIL("C15/pese/get-output", "get_output does not return the pipe given to set_output");
+                if (ubase_check(upipe_control(enc, UPIPE_END_PREROLL))) FAIL("C15/pese/foreign-command", "ts_pes_encaps accepted an unknown command");
             }
         }
     }
-    if (fd) uref_free(fd);
     /* flow definition for the decapsulation chain */
     if (!ret) {
         /* (the output flow definition of ts_encaps is "void.": its packets leave through splice) */
@@ -466,15 +1056,75 @@ static int run(const uint8_t *tape_, size_t len, struct vp_report *rep, unsigned
     /* ---------------- run ---------------- */
     struct rstate st;
     memset(&st, 0, sizeof st);
-    st.cc = cc0; st.pid = pid; st.check_pcr = !pathP && pcr_interval; st.prog_minus_sys = (int64_t)(prog0 - sys0); st.decaps = decaps;
+    st.cc = cc0; st.pid = pid; st.pid2 = c->cfg[1].pid; st.check_pcr = !pathP; st.prog_minus_sys = (int64_t)(prog0 - sys0); st.decaps = decaps;
     uint64_t T = 0;                    /* mux date, never decreases */
+    uint64_t model_last_pcr = 0;       /* mux date of the last packet that carried a PCR */
     bool pcr_only_mode = msel & 8;
     size_t maxpk = total + 300 * (size_t)nau + 64;
     uint64_t cr_sys = sys0;
-    bool eos_done = false;
+    bool eos_done = false, provided = !X.defer, setcr_done = false;
+    int next_unemitted = 0;            /* simple mode: first unit no packet of which has been emitted */
+    int flush_opt_au = -1;             /* UPIPE_FLUSH: the unit ts_encaps was holding as current (kept or not: both accepted) */
+
+#define SPLICE_ONE() do { \
+        struct ubuf *ubuf_ = NULL; uint64_t dts_sys_ = 0; \
+        st.pcr_forbidden = !pathP && pcr_iv == 0; \
+        /* (a program clock that is still negative at the mux date has no PCR representation: no expectation then) */ \
+        st.pcr_must = !pathP && pcr_iv && pcr_continuous && model_last_pcr + pcr_iv <= T && \
+                      (int64_t)T + st.prog_minus_sys + (c->offs.on ? c->offs.shift : 0) - 2 >= 0; \
+        if (!ubase_check(upipe_ts_encaps_splice(enc, T, T + mux_interval, &ubuf_, &dts_sys_)) || !ubuf_) { \
+            FAIL("C15/encaps/splice", "upipe_ts_encaps_splice(%llu) failed or returned no packet (status cr_sys=%llu ready=%d)", \
+                 (unsigned long long)T, (unsigned long long)fx->st_cr_sys, fx->st_ready); \
+        } else { \
+            ret = take_packet(c, rep, &st, ubuf_, T, render); \
+            if (!ret && st.meta[st.npkt - 1].pcr) { model_last_pcr = T; if (st.pcr_must) cls |= UINT64_C(1) << CL_X_PCR_MUST; } \
+        } } while (0)
 
     for (int i = 0; i <= nau && !ret; i++) {
         bool pump_now;
+        if (X.early_release && i == nau) { R(" ts_pes_encaps released by its owner\n"); upipe_release(enc); enc = NULL; }
+        if (X.defer && i == X.defer_k) { R(" ubuf manager provided\n"); fx_provide_deferred(fx); provided = true; }
+        if (X.badfd && nau >= 2 && i == nau - 1) {
+            char what[48];
+            size_t chunks_before = pathP ? c->sinka.nchunks : 0;
+            int acc = try_bad_flow_defs(fx, enc, pathP, fd, what, sizeof what);
+            if (acc < 0) { ret = vp_internal(rep, "uref_dup"); break; }
+            if (acc) { FAIL("C15/encaps/bad-flow-def-accepted", "in mid-stream %s accepted a flow definition it documents as invalid: %s", pathP ? "ts_pes_encaps" : "ts_encaps", what); break; }
+            (void)chunks_before;
+        }
+        if (X.fdchange && i == X.fd_at) {
+            R(" set_flow_def (second configuration)\n");
+            if (!ubase_check(upipe_set_flow_def(enc, fd2))) { FAIL("C15/encaps/flow-def-change", "the second flow definition was refused"); break; }
+        }
+        /* commands of the script issued between units */
+        for (int k = 0; k < X.nops && !ret && !pathP; k++) {
+            struct extop *o = &X.op[k];
+            if (o->done || o->at != i) continue;
+            switch (o->kind) {
+            case XO_PCRIV: case XO_PCROFF: {
+                uint64_t nv = o->kind == XO_PCROFF ? 0 : o->v, got = 1;
+                R(" set_pcr_interval(%llu)\n", (unsigned long long)nv);
+                if (!ubase_check(upipe_ts_mux_set_pcr_interval(enc, nv))) FAIL("C15/encaps/set-pcr-interval", "set_pcr_interval(%llu) failed", (unsigned long long)nv);
+                else if (!ubase_check(upipe_ts_mux_get_pcr_interval(enc, &got)) || got != nv) FAIL("C15/encaps/get-pcr-interval", "set_pcr_interval(%llu) then get_pcr_interval gives %llu", (unsigned long long)nv, (unsigned long long)got);
+                if (i > 0 && (nv == 0 || pcr_iv == 0)) pcr_continuous = false;    /* cancelled, or enabled after the first unit */
+                pcr_iv = nv;
+                cls |= UINT64_C(1) << (nv ? CL_X_PCRIV : CL_X_PCROFF);
+                o->done = true; break; }
+            case XO_TBSIZE: {
+                unsigned nv = o->v > tb_size_now ? (unsigned)o->v : tb_size_now;     /* only grown in mid-stream: shrinking below the fill level is outside the T-STD model */
+                R(" set_tb_size(%u)\n", nv);
+                if (!ubase_check(upipe_ts_encaps_set_tb_size(enc, nv))) FAIL("C15/encaps/set-tb-size", "set_tb_size(%u) failed", nv);
+                tb_size_now = nv; cls |= UINT64_C(1) << CL_X_TBSIZE; o->done = true; break; }
+            case XO_MAXLEN: {
+                unsigned got = 0;
+                R(" set_max_length(%u)\n", (unsigned)o->v);
+                if (!ubase_check(upipe_set_max_length(enc, (unsigned)o->v)) || !ubase_check(upipe_get_max_length(enc, &got)) || got != (unsigned)o->v)
+                    FAIL("C15/encaps/get-max-length", "set_max_length(%u) then get_max_length gives %u", (unsigned)o->v, got);
+                cls |= UINT64_C(1) << CL_X_MAXLEN; o->done = true; break; }
+            default: break;      /* the two flushes are issued at a pump point */
+            }
+        }
+        if (ret) break;
         if (i < nau) {
             struct audesc *d = &ad[i];
             struct au *u = &c->au[i];
@@ -489,7 +1139,7 @@ static int run(const uint8_t *tape_, size_t len, struct vp_report *rep, unsigned
                 else { uref_clock_set_cr_prog(uref, cr_prog); uref_clock_set_cr_dts_delay(uref, d->cr_dts); uref_clock_set_dts_pts_delay(uref, d->dts_pts); }
                 break;
             case 1: uref_clock_set_cr_prog(uref, cr_prog); uref_clock_set_cr_dts_delay(uref, d->cr_dts); break;
-            case 2: if (!pathP && (d->fill & 4)) uref_clock_set_cr_dts_delay(uref, d->cr_dts); break;
+            case 2: if (!pathP && ((d->fill & 4) || d->force_delay)) uref_clock_set_cr_dts_delay(uref, d->cr_dts); break;
             case 3: uref_clock_set_dts_prog(uref, cr_prog + d->cr_dts); uref_clock_set_dts_pts_delay(uref, d->dts_pts); break;
             default: uref_clock_set_pts_prog(uref, cr_prog + d->cr_dts + d->dts_pts); break;
             }
@@ -500,16 +1150,19 @@ static int run(const uint8_t *tape_, size_t len, struct vp_report *rep, unsigned
             uint64_t pts = UINT64_MAX, dts = UINT64_MAX;
             u->has_pts = ubase_check(uref_clock_get_pts_prog(uref, &pts));
             bool has_dts = ubase_check(uref_clock_get_dts_prog(uref, &dts));
-            if (priv2) u->has_pts = false;                     /* private_stream_2 has no header to carry them */
+            if (c->cfg[u->cfg].pes_id == 0xbf) u->has_pts = false;          /* private_stream_2 has no header to carry them */
             u->pts33 = u->has_pts ? (pts / 300) % R_POW33 : 0;
             u->dts33 = has_dts ? (dts / 300) % R_POW33 : 0;
             u->has_dts_field = u->has_pts && has_dts && u->dts33 != u->pts33;
             u->dts_dec = u->has_dts_field ? u->dts33 : u->pts33;
             u->bigdelay = ((u->pts33 + R_POW33 - u->dts_dec) & (R_POW33 - 1)) * 300 > F27 * 60;
-            if (u->has_pts && u->has_dts_field && u->dts33 > u->pts33) cls |= 1u << CL_WRAP;
-            if (i > 0 && u->has_pts && c->au[i - 1].has_pts && u->pts33 + (R_POW33 >> 1) < c->au[i - 1].pts33) cls |= 1u << CL_WRAP;
-            if (u->bigdelay) cls |= 1u << CL_BIGDELAY;
-            cls |= 1u << (!u->has_pts ? CL_NOPTS : u->has_dts_field ? CL_PTSDTS : CL_PTSONLY);
+            u->pts27 = pts; u->dts27 = dts; u->has_dts27 = has_dts;
+            u->has_cr27 = ubase_check(uref_clock_get_cr_prog(uref, &u->cr27));
+            u->has_dts_sys = ubase_check(uref_clock_get_dts_sys(uref, &u->dts_sys));
+            if (u->has_pts && u->has_dts_field && u->dts33 > u->pts33) cls |= UINT64_C(1) << CL_WRAP;
+            if (i > 0 && u->has_pts && c->au[i - 1].has_pts && u->pts33 + (R_POW33 >> 1) < c->au[i - 1].pts33) cls |= UINT64_C(1) << CL_WRAP;
+            if (u->bigdelay) cls |= UINT64_C(1) << CL_BIGDELAY;
+            cls |= UINT64_C(1) << (!u->has_pts ? CL_NOPTS : u->has_dts_field ? CL_PTSDTS : CL_PTSONLY);
             R(" au%d size=%zu%s%s mode=%d cr_sys=%llu pts=%s%llx dts=%s%llx%s dur=%llu segs=%d%s\n", i, u->size, u->random ? " random" : "", u->disc ? " discontinuity" : "",
               d->mode, (unsigned long long)cr_sys, u->has_pts ? "0x" : "-", (unsigned long long)u->pts33, has_dts ? "0x" : "-", (unsigned long long)u->dts33,
               u->has_dts_field ? "" : " (no DTS field)", (unsigned long long)d->dur, d->nseg + 1, d->pump ? " then pump" : "");
@@ -525,6 +1178,76 @@ static int run(const uint8_t *tape_, size_t len, struct vp_report *rep, unsigned
             pump_now = true;
         }
         if (!pump_now) continue;
+
+        /* set_cr_prog, once, the way upipe_ts_mux does it: when the first units are held and nothing has been spliced */
+        if (X.setcr && !setcr_done) {
+            setcr_done = true;
+            const struct au *u0 = &c->au[0];
+            int err = upipe_ts_mux_set_cr_prog(enc, X.cr_v);
+            R(" set_cr_prog(%llu) -> %s\n", (unsigned long long)X.cr_v, ubase_check(err) ? "ok" : "refused");
+            if (u0->has_cr27) {
+                if (!ubase_check(err)) FAIL("C15/encaps/set-cr-prog", "set_cr_prog(%llu) failed (%d) although a unit dated with cr_prog is held", (unsigned long long)X.cr_v, err);
+                /* the first unit's program clock (cr_prog, at the latest; its transmission may start earlier by its size at the
+                 * octetrate plus the TB buffer at the TB rate) becomes v: one common offset, in this window */
+                c->offs.on = true;
+                c->offs.base = (X.cr_v % M33 + M33 - u0->cr27 % M33) % M33;
+                c->offs.shift = (int64_t)X.cr_v - (int64_t)u0->cr27;
+                c->offs.lo = -2;
+                c->offs.hi = (int64_t)((uint64_t)u0->size * F27 / octetrate + (uint64_t)tb_size_now * F27 / tb_rate + 2);
+                cls |= UINT64_C(1) << CL_X_SETCR;
+            } else {
+                if (ubase_check(err)) FAIL("C15/encaps/set-cr-prog", "set_cr_prog succeeded although the held unit has no cr_prog");
+                cls |= UINT64_C(1) << CL_X_SETCR_REFUSED;
+            }
+        }
+        /* the two flushes of the script, at this pump point (simple mode: units next_unemitted..i are held, whole and unstarted) */
+        for (int k = 0; k < X.nops && !ret; k++) {
+            struct extop *o = &X.op[k];
+            if (o->done || o->at > i || (o->kind != XO_SPLICE_FLUSH && o->kind != XO_UPIPE_FLUSH)) continue;
+            o->done = true;
+            int a = next_unemitted, b = i < nau ? i : nau - 1;
+            if (!provided || a > b || eos_done) continue;
+            if (o->kind == XO_SPLICE_FLUSH) {
+                bool ok = true;
+                for (int j = a; j <= b; j++) if (!c->au[j].has_dts_sys) ok = false;
+                if (!ok) continue;
+                int want = 1 + (int)(o->v % 3); if (want > b - a + 1) want = b - a + 1;
+                uint64_t Tf = 0;
+                for (int j = a; j < a + want; j++) if (c->au[j].dts_sys + 1 > Tf) Tf = c->au[j].dts_sys + 1;
+                if (Tf < T) Tf = T;
+                /* late for sure: the DTS itself is before the date; in time for sure: even the DTS minus the transfer of the
+                 * whole unit and its headers at the slower TB rate is after it; anything in between: do not issue the command */
+                uint64_t slow = X.fdchange && X.tb_rate2 < tb_rate ? X.tb_rate2 : tb_rate;
+                int ndrop = 0; bool ambiguous = false;
+                for (int round = 0; round <= b - a + 1; round++) {
+                    ndrop = 0; ambiguous = false;
+                    for (int j = a; j <= b; j++) {
+                        const struct au *u = &c->au[j];
+                        if (u->dts_sys < Tf) { ndrop++; continue; }
+                        uint64_t xfer = (uint64_t)(u->size + 300) * F27 / slow + 2;
+                        if (u->dts_sys < xfer || u->dts_sys - xfer <= Tf) { ambiguous = true; Tf = u->dts_sys + 1; }   /* then this one is late too */
+                        break;
+                    }
+                    if (!ambiguous) break;
+                }
+                if (ambiguous || !ndrop) continue;
+                R(" splice(%llu, NULL): drop the late units (au%d..au%d)\n", (unsigned long long)Tf, a, a + ndrop - 1);
+                if (!ubase_check(upipe_ts_encaps_splice(enc, Tf, Tf + mux_interval, NULL, NULL))) { FAIL("C15/encaps/splice-flush", "upipe_ts_encaps_splice(%llu, NULL) failed", (unsigned long long)Tf); break; }
+                T = Tf;
+                for (int j = a; j < a + ndrop; j++) c->au[j].dropped = true;
+                next_unemitted = a + ndrop;
+                cls |= UINT64_C(1) << CL_X_SPLICE_FLUSH;
+            } else {
+                if (X.fdchange && a < X.fd_at && X.fd_at <= b) continue;      /* the queued flow definition would be flushed too */
+                R(" UPIPE_FLUSH (au%d current, au%d..au%d queued)\n", a, a + 1, b);
+                int err = upipe_flush(enc);
+                if (!ubase_check(err)) { FAIL("C15/encaps/flush-return", "upipe_flush returned error %d although it flushed the %d queued units (upipe_ts_mux aborts its own flush on that)", err, b - a); break; }
+                for (int j = a + 1; j <= b; j++) c->au[j].dropped = true;
+                if (b > a) { flush_opt_au = a; cls |= UINT64_C(1) << CL_X_UPIPE_FLUSH; }
+            }
+        }
+        if (ret) break;
+
         int pcr_only_budget = pcr_only_mode ? 2 : 0;
         while (!ret) {
             if (fx->st_cr_sys == UINT64_MAX) break;                    /* nothing held */
@@ -532,39 +1255,56 @@ static int run(const uint8_t *tape_, size_t len, struct vp_report *rep, unsigned
             uint64_t due = fx->st_cr_sys;
             if (pcr_only_budget > 0 && fx->st_pcr_sys < due && fx->st_pcr_sys > T) { due = fx->st_pcr_sys; pcr_only_budget--; }
             if (due > T) T = due;
-            struct ubuf *ubuf = NULL; uint64_t dts_sys = 0;
-            if (!ubase_check(upipe_ts_encaps_splice(enc, T, T + mux_interval, &ubuf, &dts_sys)) || !ubuf) {
-                FAIL("C15/encaps/splice", "upipe_ts_encaps_splice(%llu) failed or returned no packet (status cr_sys=%llu ready=%d)",
-                     (unsigned long long)T, (unsigned long long)fx->st_cr_sys, fx->st_ready);
-                break;
-            }
-            size_t usz = 0; uint8_t pk[R_TS];
-            ubuf_block_size(ubuf, &usz);
-            if (usz != R_TS) { FAIL("C15/ts/size", "packet %zu has %zu octets", st.npkt, usz); ubuf_free(ubuf); break; }
-            if (!ubase_check(ubuf_block_extract(ubuf, 0, R_TS, pk))) { ubuf_free(ubuf); ret = vp_internal(rep, "extract"); break; }
-            ubuf_free(ubuf);
-            ret = on_packet(c, rep, &st, pk, T, render);
+            SPLICE_ONE();
             if (!ret && st.npkt > maxpk) FAIL("C15/encaps/no-progress", "%zu packets emitted for %zu octets in %d access units", st.npkt, total, nau);
         }
+        if (!ret && provided && fx->st_cr_sys == UINT64_MAX && i < nau) next_unemitted = i + 1;
         /* an idle PCR PID still gets PCR-only packets from the mux */
-        if (!ret && eos_done && pcr_only_mode && pcr_interval && fx->st_cr_sys == UINT64_MAX && fx->st_pcr_sys != UINT64_MAX) {
+        if (!ret && eos_done && pcr_only_mode && pcr_iv && fx->st_cr_sys == UINT64_MAX && fx->st_pcr_sys != UINT64_MAX) {
             for (int q = 0; q < 2 && !ret; q++) {
                 if (fx->st_pcr_sys > T) T = fx->st_pcr_sys;
-                struct ubuf *ubuf = NULL; uint64_t dts_sys = 0; uint8_t pk[R_TS]; size_t usz = 0;
-                if (!ubase_check(upipe_ts_encaps_splice(enc, T, T + mux_interval, &ubuf, &dts_sys)) || !ubuf) { FAIL("C15/encaps/splice", "splice for a PCR-only packet failed"); break; }
-                ubuf_block_size(ubuf, &usz);
-                if (usz != R_TS) { FAIL("C15/ts/size", "packet %zu has %zu octets", st.npkt, usz); ubuf_free(ubuf); break; }
-                if (!ubase_check(ubuf_block_extract(ubuf, 0, R_TS, pk))) { ubuf_free(ubuf); ret = vp_internal(rep, "extract"); break; }
-                ubuf_free(ubuf);
-                ret = on_packet(c, rep, &st, pk, T, render);
+                SPLICE_ONE();
             }
         }
     }
+#undef SPLICE_ONE
+    if (!ret && enc && !pathP && X.getters) {
+        unsigned got = 99;
+        if (st.npkt && (!ubase_check(upipe_ts_mux_get_cc(enc, &got)) || got != st.cc)) FAIL("C15/encaps/get-cc", "get_cc gives %u, the last packet with payload carried %u", got, st.cc);
+        struct uref *gfd = NULL;
+        if (!ret && !ubase_check(upipe_get_flow_def(enc, &gfd))) FAIL("C15/encaps/get-flow-def", "get_flow_def fails after a flow definition was set and used");
+    }
+    if (!ret && enc && pathP && X.getters) {
+        struct uref *gfd = NULL; const char *def = NULL;
+        if (!ubase_check(upipe_get_flow_def(enc, &gfd)) || !gfd || !ubase_check(uref_flow_get_def(gfd, &def)) || strncmp(def, "block.mpegtspes.", 16))
+            FAIL("C15/pese/get-flow-def", "get_flow_def of ts_pes_encaps gives '%s', expected block.mpegtspes....", def ? def : "(none)");
+    }
+    fx->ndeferred = 0;
     if (enc) { upipe_release(enc); enc = NULL; }
+    if (fd) uref_free(fd);
+    if (fd2) uref_free(fd2);
     if (!ret && !pathP && fx->st_cr_sys != UINT64_MAX)
         FAIL("C15/encaps/data-left", "after eos and draining, ts_encaps still reports data (cr_sys=%llu ready=%d)", (unsigned long long)fx->st_cr_sys, fx->st_ready);
     if (!ret && !pathP && (!fx->got_last_cc || fx->last_cc_event != st.cc))
         FAIL("C15/encaps/last-cc", "last_cc event says %u (thrown=%d), last packet with payload carried %u", fx->last_cc_event, fx->got_last_cc, st.cc);
+    if (!ret && X.outsink) {
+        if (c->outsink.nchunks) FAIL("C15/encaps/output-data", "the output pipe of ts_encaps received %zu buffers (packets leave through splice only)", c->outsink.nchunks);
+        else if (!c->outsink.nflowdef) FAIL("C15/encaps/output-flow-def", "the output pipe of ts_encaps never received a flow definition");
+    }
+
+    /* the model of what was dropped by the flushes: compact the units */
+    if (!ret) {
+        int kept = 0;
+        for (int i = 0; i < c->nau; i++) if (!c->au[i].dropped) kept++;
+        if (flush_opt_au >= 0 && !c->au[flush_opt_au].dropped && c->npstart + 1 == (size_t)kept) c->au[flush_opt_au].dropped = true;
+        size_t pos = 0; int n = 0;
+        for (int i = 0; i < c->nau; i++) {
+            if (c->au[i].dropped) continue;
+            memmove(c->cat + pos, c->cat + c->au[i].off, c->au[i].size);
+            c->au[n] = c->au[i]; c->au[n].off = pos; pos += c->au[n].size; n++;
+        }
+        c->nau = n; c->ncat = pos; total = pos;
+    }
 
     /* path P: cut the recorded PES packets into TS packets with the reference packetiser */
     if (!ret && pathP) {
@@ -604,6 +1344,7 @@ static int run(const uint8_t *tape_, size_t len, struct vp_report *rep, unsigned
                 w.payload = A->bytes + start + pos; w.pay_len = n;
                 uint8_t pk[R_TS];
                 if (!wts_build(&w, pk)) { ret = vp_internal(rep, "reference packetiser"); break; }
+                st.check_pcr = false;
                 ret = on_packet(c, rep, &st, pk, 0, render);
                 pos += n; first = false;
             }
@@ -626,23 +1367,26 @@ static int run(const uint8_t *tape_, size_t len, struct vp_report *rep, unsigned
         size_t start = c->pstart[k], end = k + 1 < c->npstart ? c->pstart[k + 1] : c->nes;
         struct rpes r;
         int pr = rpes_parse(c->es + start, end - start, &r);
+        /* the flow definition in force for this PES: the one of the access unit its first payload octet belongs to */
+        int ai = au_containing(c, espos);
+        const struct cfg *cf = &c->cfg[ai >= 0 ? c->au[ai].cfg : 0];
         R("  pes%zu at %zu size=%zu %s stream_id=0x%02x length=%u hdr=%zu%s pts=%s%llx dts=%s%llx%s%s\n", k, start, end - start, pr == 0 ? "ok" : pr > 0 ? "TRUNCATED" : r.bad,
           r.stream_id, r.length, r.hdr_size, r.align ? " align" : "", r.has_pts ? "0x" : "-", (unsigned long long)r.pts, r.has_dts ? "0x" : "-", (unsigned long long)r.dts,
           c->prai[k] ? " RAI" : "", c->pdi[k] ? " DI" : "");
         if (pr < 0) { FAIL("C15/ref/pes-header", "PES %zu: %s", k, r.bad); break; }
         if (pr > 0) { FAIL("C15/ref/pes-truncated", "PES %zu: %zu octets until the next unit start, header incomplete", k, end - start); break; }
-        if (r.stream_id != pes_id) { FAIL("C15/ref/stream-id", "PES %zu: stream_id 0x%02x, configured 0x%02x", k, r.stream_id, pes_id); break; }
+        if (r.stream_id != cf->pes_id) { FAIL("C15/ref/stream-id", "PES %zu: stream_id 0x%02x, configured 0x%02x", k, r.stream_id, cf->pes_id); break; }
         size_t pes_size = end - start;
         if (r.length != 0 ? r.length != pes_size - 6 : !video)       /* 0 = unbounded, allowed for video only */
             { FAIL("C15/ref/pes-length", "PES %zu (stream_id 0x%02x) has %zu octets after the length field, PES_packet_length says %u", k, r.stream_id, pes_size - 6, r.length); break; }
-        if (r.length == 0) cls |= 1u << CL_UNBOUNDED;
+        if (r.length == 0) cls |= UINT64_C(1) << CL_UNBOUNDED;
         if (r.opt) {
             if (r.scramble || r.prio || r.copyright || r.original || r.escr_f || r.esrate_f || r.trick_f || r.addcopy_f || r.crc_f || r.ext_f)
                 { FAIL("C15/ref/pes-flags", "PES %zu: unexpected header flags %02x %02x", k, c->es[start + 6], c->es[start + 7]); break; }
             if (!r.ts_syntax_ok) { FAIL("C15/ref/timestamp-syntax", "PES %zu: PTS/DTS prefix or marker bits wrong (%02x .. %02x)", k, c->es[start + 9], c->es[start + 13]); break; }
             if (!r.stuffing_ok) { FAIL("C15/ref/pes-stuffing", "PES %zu: header stuffing is not 0xff", k); break; }
         }
-        if (r.hdr_size < min_hdr) { FAIL("C15/ref/min-header", "PES %zu: header of %zu octets, minimal header size %u requested", k, r.hdr_size, min_hdr); break; }
+        if (r.hdr_size < cf->min_hdr) { FAIL("C15/ref/min-header", "PES %zu: header of %zu octets, minimal header size %u requested", k, r.hdr_size, cf->min_hdr); break; }
         struct pesv *v = &c->va[c->nva++];
         v->off = espos; v->size = pes_size - r.hdr_size; espos += v->size;
         v->has_pts = r.has_pts; v->has_dts = r.has_dts; v->pts = r.pts; v->dts = r.dts;
@@ -652,14 +1396,26 @@ static int run(const uint8_t *tape_, size_t len, struct vp_report *rep, unsigned
             FAIL("C15/ref/payload", "PES %zu payload differs from the access units at elementary-stream offset %zu (PES payload offset %zu of %zu)", k, v->off + d, d, v->size);
             break;
         }
-        if (au_at(c, v->off) < 0) cls |= 1u << CL_OVERLAP;
-        { int cnt = 0; for (int i = 0; i < c->nau; i++) if (c->au[i].off >= v->off && c->au[i].off < v->off + v->size) cnt++; if (cnt > 1) cls |= 1u << CL_AGGREGATE; }
-        if (r.hdr_size > 184 - 8) cls |= 1u << CL_HDRSPLIT;
+        if (au_at(c, v->off) < 0) cls |= UINT64_C(1) << CL_OVERLAP;
+        { int cnt = 0; for (int i = 0; i < c->nau; i++) if (c->au[i].off >= v->off && c->au[i].off < v->off + v->size) cnt++; if (cnt > 1) cls |= UINT64_C(1) << CL_AGGREGATE; }
+        if (r.hdr_size > 184 - 8) cls |= UINT64_C(1) << CL_HDRSPLIT;
     }
     bool one_per_au = aligned && !min_dur;
     /* ts_pes_encaps knows nothing of the TS-level markers: when it aggregates units, a random unit may sit inside a PES */
     bool markers = !pathP || !min_dur;
     if (!ret) ret = check_views(c, rep, "ref", c->va, c->nva, false, aligned, one_per_au, markers);
+    /* every payload-carrying packet carries the PID of the flow definition in force for the access unit it belongs to */
+    if (!ret && !pathP) {
+        long cur = -1;
+        for (size_t n = 0; n < st.npkt && !ret; n++) {
+            if (!st.meta[n].has_payload) continue;        /* a PCR-only packet between two configurations may carry either */
+            if (st.meta[n].pusi) cur++;
+            if (cur < 0 || (size_t)cur >= c->nva) break;
+            int ai = au_containing(c, c->va[cur].off);
+            unsigned want = c->cfg[ai >= 0 ? c->au[ai].cfg : 0].pid;
+            if (st.meta[n].pid != want) FAIL("C15/ts/pid", "packet %zu (PES %ld, au%d) carries PID %u, the flow definition in force for that access unit says %u", n, cur, ai, st.meta[n].pid, want);
+        }
+    }
 
     /* ---------------- upipe view ---------------- */
     if (!ret) {
@@ -720,19 +1476,19 @@ static int run(const uint8_t *tape_, size_t len, struct vp_report *rep, unsigned
         size_t cnt = 0; bool last_af = false;
         for (size_t k = 0; k <= st.npkt; k++) {
             if (k == st.npkt || (st.meta[k].has_payload && st.meta[k].pusi)) {
-                if (cnt >= 3 && last_af) cls |= 1u << CL_AU3AF;
-                if (cnt >= 2 && !last_af) cls |= 1u << CL_MULT184;
+                if (cnt >= 3 && last_af) cls |= UINT64_C(1) << CL_AU3AF;
+                if (cnt >= 2 && !last_af) cls |= UINT64_C(1) << CL_MULT184;
                 cnt = 0;
                 if (k == st.npkt) break;
             }
-            if (st.meta[k].pcr) cls |= 1u << CL_PCR;
-            if (st.meta[k].pcr && !st.meta[k].has_payload) cls |= 1u << CL_PCR_ONLY_PKT;
+            if (st.meta[k].pcr) cls |= UINT64_C(1) << CL_PCR;
+            if (st.meta[k].pcr && !st.meta[k].has_payload) cls |= UINT64_C(1) << CL_PCR_ONLY_PKT;
             if (st.meta[k].has_payload) { cnt++; last_af = st.meta[k].has_af; }
         }
     }
 
     /* ---------------- teardown ---------------- */
-    fx_rec_clean(&c->tee); fx_rec_clean(&c->sink); fx_rec_clean(&c->sinka);
+    fx_rec_clean(&c->tee); fx_rec_clean(&c->sink); fx_rec_clean(&c->sinka); fx_rec_clean(&c->outsink);
     free(st.meta); free(c->cat); free(c->va); free(c->vb);
     c->cat = NULL; c->va = c->vb = NULL;
     const char *leak = fx_clean(fx);
